@@ -1,6 +1,7 @@
 /- C18 line-protocol driver: `lake env lean --run Verif/C18/Driver.lean` -/
 import Verif.Common.Proto
 import Verif.C18.Model
+import Verif.C18.Api
 open Lean Verif.Proto Verif.C18
 
 namespace Verif.C18.Driver
@@ -77,6 +78,22 @@ def jCount (c : Count) : Json := jList jNat [c.gold, c.test, c.both]
 
 def jMatch (m : Match) : Json := jList jCount [m.name, m.argument, m.property, m.constant, m.top]
 
+def jOptMatch : Option Match → Json
+  | none => Json.null
+  | some m => jMatch m
+
+def jScore : Except Err Score → Json
+  | .ok s => jList jRat [s.precision, s.recall, s.fscore]
+  | .error e => jErr (errTag e)
+
+def ofIm (s : String) : Except String IgnoreMissing :=
+  match s with
+  | "gold" => pure .gold
+  | "test" => pure .test
+  | "both" => pure .both
+  | "none" => pure .none
+  | _ => throw s!"bad ignore-missing {s}"
+
 def handle (j : Json) : Except String Json := do
   let op ← getStr j "op"
   match op with
@@ -92,10 +109,19 @@ def handle (j : Json) : Except String Json := do
       let tot := match accumulateG ig it golds tests with
         | .ok m => jMatch m
         | .error e => jErr (errTag e)
-      let sc := match compute w ig it golds tests with
-        | .ok s => jList jRat [s.precision, s.recall, s.fscore]
-        | .error e => jErr (errTag e)
-      pure (Json.mkObj [("totals", tot), ("score", sc)])
+      let sc := jScore (compute w ig it golds tests)
+      -- the same call with the module logger enabled for INFO, and what the log lines show pair by pair
+      let sci := jScore (computeI true w ig it golds tests)
+      let (tr, te) := traceG ig it golds tests
+      let trj := Json.mkObj [("pairs", jList jOptMatch tr),
+                             ("err", match te with | none => Json.null | some e => Json.str (errTag e))]
+      -- the sub-command: -N -A -P -C -T and --ignore-missing
+      let cli ← match j.getObjVal? "im" with
+        | .ok (Json.str im) => do
+          let im ← ofIm im
+          pure (jScore (cliCompute ⟨a, b, c, d, e, im⟩ golds tests))
+        | _ => pure Json.null
+      pure (Json.mkObj [("totals", tot), ("score", sc), ("score_info", sci), ("trace", trj), ("cli", cli)])
     | _ => throw "need five weights"
   | _ => throw s!"bad op {op}"
 
